@@ -678,6 +678,9 @@ def gen_async(seed: int, tier: str = "quick") -> Dict[str, Any]:
                                              if c["kind"] in ("get_progress", "get_related_entities")]
         kind = rng.choice(["set_data", "get_data"])
         call = {"kind": kind, "p": 1.0 if rng.random() < 0.5 else 0.5, "illegal": how}
+        if rng.random() < 0.5:
+            # not before other agents had the chance to make legal requests
+            call["from_time"] = rng.choice([1, 2, 3])
         if kind == "set_data":
             call.update({"src_eid": "e0", "dst": target, "attr": "m_in"})
         else:
